@@ -32,7 +32,10 @@ RULE = ("generated frozen dataclasses deriving from ASTNode, 1-3 classes per inh
         "3 node classes, 2 node classes defined only after the annotated class, NewType, Union/Optional, tuple fixed/"
         "variadic/empty, frozenset, Sequence, Mapping, list, dict, set (bare or parameterised)}; every chain is rendered "
         "with plain and with postponed annotations and a random choice of `X | None` vs Optional/Union, builtin vs "
-        "typing generics, whole-annotation vs inner quoting of forward references; thorough adds every term of depth "
+        "typing generics, whole-annotation vs inner quoting of forward references, and its own order of the members of "
+        "every union (None first / in the middle / last, reversed, shuffled); every generated module defines fresh node "
+        "classes (pyoak's predicates are lru_cached and unions that differ only in member order compare equal), and the "
+        "memo tables of pyoak.typing are cleared before a random half of the cases; thorough adds every term of depth "
         "<= 2 over 5 leaves; non-trivial = some annotation has depth >= 1; distinct by request line + spelling")
 TRUSTED = ["typing.get_type_hints / get_args / get_origin / NewType.__supertype__ / issubclass on collections.abc "
            "(typing-module introspection): the term sent to the model is the term the source text was rendered from",
@@ -68,7 +71,18 @@ NAMED = [
     ("coll", "frozenset", [("atom", "str")]), ("coll", "sequence", [("atom", "int")]),
     ("coll", "mapping", [("atom", "str"), ("vtuple", ("atom", "int"))]),
     ("union", [("atom", "int"), ("none",)]), ("union", [("atom", "int"), ("atom", "str")]),
+    # None first / in the middle of a union (typing keeps the order; `==` on unions ignores it)
+    ("union", [("none",), ("node", 0)]), ("union", [("none",), ("fwd", 0)]), ("union", [("node", 0), ("none",), ("node", 2)]),
+    ("union", [("none",), ("nt", ("node", 0))]), ("union", [("none",), ("atom", "int")]),
+    ("union", [("atom", "int"), ("none",), ("atom", "str")]),
     # rejected shapes
+    ("vtuple", ("union", [("none",), ("node", 0)])), ("vtuple", ("union", [("none",), ("fwd", 0)])),
+    ("coll", "tuple", [("node", 0), ("union", [("none",), ("node", 1)])]),
+    ("vtuple", ("union", [("node", 0), ("none",), ("node", 2)])), ("coll", "tuple", [("union", [("none",), ("node", 0), ("node", 2)])]),
+    ("vtuple", ("union", [("none",), ("nt", ("node", 0))])),
+    ("union", [("none",), ("node", 0), ("atom", "int")]), ("union", [("none",), ("vtuple", ("node", 0))]),
+    ("union", [("none",), ("coll", "list", [("atom", "int")])]), ("vtuple", ("union", [("none",), ("coll", "set", [])])),
+    ("coll", "frozenset", [("union", [("none",), ("node", 0)])]),
     ("union", [("node", 0), ("atom", "int")]), ("union", [("fwd", 0), ("atom", "str"), ("none",)]),
     ("coll", "sequence", [("node", 0)]), ("coll", "frozenset", [("node", 0)]), ("coll", "frozenset", [("fwd", 0)]),
     ("coll", "mapping", [("atom", "str"), ("node", 0)]), ("coll", "list", [("node", 0)]),
@@ -114,6 +128,8 @@ def abstract(t):
 
 def one_case(levels, sp, rng, kind):
     """run one chain in one spelling: the Case plus its raw observation"""
+    if rng.random() < 0.5:
+        z.clear_predicate_caches()
     ch = z.Chain(levels, sp)
     order = list(range(len(levels)))
     rng.shuffle(order)                       # order of first use among the classes of the chain
@@ -160,15 +176,18 @@ def variants(levels, rng, kind, spellings=None):
         bits = [rng.random() < 0.5 for _ in range(6)]
         spellings = [z.Spelling(False, bits[0], bits[1], bits[2]), z.Spelling(True, bits[3], bits[4], bits[5])]
     seen = []
-    for sp in spellings:
-        case, obs = one_case(levels, sp, rng, kind)
+    for i, sp in enumerate(spellings):
+        # the first rendering keeps the member order of the term, every other one permutes the members of every
+        # union (None first / last, reversed, shuffled): the verdict must not depend on it
+        lv = levels if i == 0 else [[(fn, z.permute_unions(t, rng)) for fn, t in lvl] for lvl in levels]
+        case, obs = one_case(lv, sp, rng, kind)
         seen.append((sp, obs, case))
         yield case
     ref_sp, ref, ref_case = seen[0]
     fail = None
     for sp, obs, _ in seen[1:]:
         if z.canon(obs) != z.canon(ref):
-            fail = (f"verdict differs between spellings {ref_sp.tag()} and {sp.tag()}: "
+            fail = (f"verdict differs between spellings / union member orders {ref_sp.tag()} and {sp.tag()}: "
                     f"{dumps(z.canon(ref))} vs {dumps(z.canon(obs))}")
             break
     yield Case(kind + "/spelling-invariance", None, None, ref_case.nontrivial, ref_case.desc, oracle_fail=fail,
